@@ -302,7 +302,11 @@ func exploreHarness(prog *ssa.Program, fn *ssa.Function, inits []*ssa.Function, 
 				}
 			}
 		}
-		initedPkgs[ifn.Pkg.Pkg.Path()] = true
+		if uninitAudit {
+			initedMu.Lock()
+			initedPkgs[ifn.Pkg.Pkg.Path()] = true
+			initedMu.Unlock()
+		}
 		e0.pushCall(st, ifn, nil, nil, nil)
 		e0.run(st)
 		if st.outcome != "return" {
